@@ -28,8 +28,8 @@ import (
 	"time"
 
 	ssi "github.com/nuts-foundation/go-did"
-	"github.com/nuts-foundation/go-stoabs"
 	"github.com/nuts-foundation/go-did/did"
+	"github.com/nuts-foundation/go-stoabs"
 	"github.com/nuts-foundation/nuts-node/audit"
 	nutsCrypto "github.com/nuts-foundation/nuts-node/crypto"
 	"github.com/nuts-foundation/nuts-node/crypto/hash"
